@@ -247,7 +247,9 @@ func init() {
 			c10register()
 			os.Chdir("/repo")
 			ps := c20corpus()
-			c.Note("programs", fmt.Sprint(len(ps)))
+			if c.Worker == 0 {
+				c.Count("programs", int64(len(ps)))
+			}
 			if b, err := os.ReadFile(filepath.Join(os.Getenv("VERIF_DIR"), "bin/mo/report.json")); err == nil {
 				c.Note("seam", string(b))
 			}
